@@ -9,7 +9,7 @@ META = {
     "level": "proof",
     "technique": "Coq proofs over Gaussian rationals (wire-cut identity with PennyLane's measure/prepare tables, single cut with environments of any size, k parallel cuts by tensor induction, contraction independent of operand/index order) + correspondence: the implementation's qcut_processing_fn against the Gallina contraction model on the real communication graphs, and the real cut_circuit pipeline against an exact Coq-simulated uncut reference",
     "design_ref": "DESIGN.md §3 C24",
-    "text": "Theorems (Props/C24.v, closed under the global context): every 2x2 matrix is 1/2 sum_P tr(P rho) P; each Pauli is the CHANGE_OF_BASIS combination of the four prepared states |0>,|1>,|+>,|+i> and the PREPARE_SETTINGS circuits produce exactly those states; for upstream/downstream fragments with environments of ANY size and arbitrary operators the executable contraction model (the one compared with the implementation) applied to the two fragments' results equals the uncut expectation; k parallel cuts between two fragments for all k; the contraction does not depend on the order of fragments or of index assignments; the eight cut_circuit_mc settings resolve the identity channel with weights +-1/2. Tie on every run: (a) CHANGE_OF_BASIS, PREPARE_SETTINGS, MC tables exported from /repo equal the model's; (b) cut_circuit (raw tape transform) on generated circuits of 3-6 wires with 1-3 WireCuts (also two-wire WireCuts, ineffective cuts, disconnected pieces) and KaHyPar-placed cuts: the returned communication graph / prepare_nodes / measure_nodes plus random dyadic fragment results are evaluated by the implementation's qcut_processing_fn and by the Gallina model inside Coq (vm_compute); (c) every configuration tape prepares / measures the setting its position in the result vector stands for (4^prep x 3^meas tapes, product order, partition_pauli_group grouping), decoded semantically from the tapes; (d) fragment tapes are simulated EXACTLY in Coq (Q(zeta_8)), the exact expectation values are fed to the implementation's post-processing and must equal the exact uncut expectation (1e-9); (e) the full QNode pipeline on default.qubit (Pauli words and sums, manual and automatic cuts) equals the exact uncut value (1e-9); (f) cut_circuit_mc: 6-sigma bound with the exactly known single-shot variance 16^K - mu^2 (numeric/statistical only).",
+    "text": "Theorems (Props/C24.v, closed under the global context): every 2x2 matrix is 1/2 sum_P tr(P rho) P; each Pauli is the CHANGE_OF_BASIS combination of the four prepared states |0>,|1>,|+>,|+i> and the PREPARE_SETTINGS circuits produce exactly those states; for upstream/downstream fragments with environments of ANY size and arbitrary operators the executable contraction model (the one compared with the implementation) applied to the two fragments' results equals the uncut expectation; k parallel cuts between two fragments for all k; the contraction does not depend on the order of fragments or of index assignments; the eight cut_circuit_mc settings resolve the identity channel with weights +-1/2. Tie on every run: (a) CHANGE_OF_BASIS, PREPARE_SETTINGS, MC tables exported from /repo equal the model's; (b) cut_circuit (raw tape transform) on generated circuits of 3-6 wires with 1-3 WireCuts (also two-wire WireCuts, ineffective cuts, disconnected pieces) and KaHyPar-placed cuts: the returned communication graph / prepare_nodes / measure_nodes plus random dyadic fragment results are evaluated by the implementation's qcut_processing_fn and by the Gallina model inside Coq (vm_compute); (c) every configuration tape prepares / measures the setting its position in the result vector stands for (4^prep x 3^meas tapes, product order, partition_pauli_group grouping), decoded semantically from the tapes; (d) fragment tapes are simulated EXACTLY in Coq (Q(zeta_8)), the exact expectation values are fed to the implementation's post-processing and must equal the exact uncut expectation (1e-9); (e) the full QNode pipeline on default.qubit (Pauli words and sums, manual and automatic cuts) equals the exact uncut value (1e-9); (f) cut_circuit_mc: 6-sigma bound with the exactly known single-shot variance 16^K - mu^2 on random single-cut circuits and a designed GHZ case, plus a direct probe that the measurements of one single-shot fragment tape come from one joint shot (numeric/statistical only). On the pinned tree (f) FAILS: default.qubit samples sample(Projector) and sample(Pauli) measurements of a tape independently, so cut_circuit_mc is biased; reported under the stable key finding:cut_circuit_mc-samples-not-joint.",
     "note": "Trusted: Coq kernel; exactsim post-processing (numpy on exact amplitudes); the harness' extraction of edge/axis incidence from node uids. Modelled, not proved from source: the per-tensor factors 2^(-n/2) are represented by their rational total (1/2)^cuts; the einsum symbol allocation loop of contract_tensors is specified (one summed index per edge), not transcribed; partition_pauli_group's order is an oracle read from the tapes and compared with an independent enumeration. Not covered by proof: general multi-fragment topologies (sequential cuts, cycles) are validated per generated instance by (b),(d),(e) only; the automatic cutter is an oracle (any cut it returns is checked through (b),(e)); cut_circuit_mc only statistically; gradients and interfaces other than numpy are not exercised; use_opt_einsum=True only through every third pipeline case (numeric); WireCut inside nested templates (max_depth expansion) not generated.",
     "assumptions": ["default.qubit float error below 1e-9 for <= 6 wires"],
     "trusted": ["harness/exactsim.py post-processing", "translator harness/qx.py (gate matrices to exact constants)"],
@@ -139,7 +139,8 @@ def run(ctx):
     payload = {"mode": "build", "seed": ctx.rng.randrange(10 ** 9), "tier": ctx.tier,
                "ncase": 14 if quick else 70, "nexact": 6 if quick else 30,
                "kcuts": [1, 2, 1, 3, 1, 2, 2] if quick else [1, 2, 3, 1, 2, 2, 3],
-               "nauto": 4 if quick else 16, "nmc": 2 if quick else 6, "nmax": 6}
+               "nauto": 4 if quick else 16, "nmc": 2 if quick else 6, "nmax": 6,
+               "maxtapes": 48 if quick else 300, "maxcirc": 70 if quick else 600}
     sess = Session()
     try:
         _run(ctx, sess, payload)
@@ -168,7 +169,8 @@ def _run(ctx, sess, payload):
     allst = [("manual", c, ti, st) for c in ok for ti, st in enumerate(c["t"])] + [("auto", a, 0, a["st"]) for a in okauto if "st" in a]
     npy = 0
     for kind, c, ti, st in allst:
-        if st["k"] <= kmax and max(f["np"] + f["nm"] for f in st["frags"]) <= 4:
+        cost = 4 ** st["k"] * sum(4 ** f["np"] * (f["np"] + 1) for f in st["frags"])
+        if st["k"] <= kmax and max(f["np"] + f["nm"] for f in st["frags"]) <= 4 and cost <= (8000 if quick else 60000):
             terms.append(g_contract(st)); meta.append((kind, c, ti))
         if st["k"] <= 6:
             npy += 1
@@ -251,6 +253,8 @@ def _run(ctx, sess, payload):
         if not c["exact"]:
             continue
         for ti, st in enumerate(c["t"]):
+            if "tapes" not in st:
+                continue
             res = []
             for t in st["tapes"]:
                 s = states[t["c"]]
@@ -287,7 +291,7 @@ def _run(ctx, sess, payload):
                             "cut_circuit_mc": r["value"], "exact_uncut": m["exact_value"], "six_sigma": 6 * sigma})
     probe = post.get("joint_probe") or {}
     not_joint = probe.get("impossible_projector_pauli", 0) + probe.get("impossible_projector_projector", 0) > 0
-    if not_joint and (mc_fail or True):
+    if not_joint:
         # root cause established by the probe: one stable key for the defect and all its statistical consequences
         ctx.violation("finding:cut_circuit_mc-samples-not-joint",
                       {"probe": probe, "estimates_outside_six_sigma": mc_fail,
